@@ -165,6 +165,9 @@ def correspondence(ctx):
         add('eval_json_path', 'str_eqb (json_path uw %s) %s' % (ckeys(keys), czs(text)), keys, text)
         pg = R['pg_eval_json_path'](keys)
         add('pg_eval_json_path', 'str_eqb (pg_json_path uw %s) %s' % (ckeys(keys), czs(pg)), keys, pg)
+        got = c29_impl.pg_array_parse(pg)
+        lit = 'None' if got == 'ERR' else '(Some [%s])' % '; '.join('PNull' if x is None else '(PText %s)' % czs(x) for x in got)
+        add('pg_array', '(match pg_array %s, %s with Some a, Some b => (fix eq (x y : list pgelem) : bool := match x, y with [], [] => true | PNull :: x\', PNull :: y\' => eq x\' y\' | PText s :: x\', PText t :: y\' => str_eqb s t && eq x\' y\' | _, _ => false end) a b | None, None => true | _, _ => false end)' % (czs(pg), lit), keys, [pg, got])
         back = R['parse_path'](text)
         add('parse_path', 'opkeys_eqb (parse_path uw %s) %s' % (czs(text), 'None' if back is None else '(Some %s)' % ckeys(list(back))), text, back)
         if all(not (isinstance(k, str) and '"' in k) for k in keys): nontrivial.add(('path', json.dumps(keys)))
@@ -453,6 +456,18 @@ def search(ctx, deep):
                 # single digits only: two JSON items are ordered by their text on SQLite (recorded finding), which for one digit is the numeric order
                 sdocs = [{'p': {'lo': rng.randint(0, 5), 'hi': rng.randint(3, 9), 'mid': rng.randint(0, 9)}, 'q': {'lo': 7, 'hi': 2, 'mid': 5},
                           'l': [rng.randint(0, 2) for _ in range(3)], 'm': [rng.randint(3, 5) for _ in range(3)], 'n': [7, 8, 9]} for _ in range(4)]
+                if rnd == 0 and json1:
+                    # PostgreSQL path literal judged by the documented text[] syntax (not executed)
+                    R_ = c29_impl.real_funcs()
+                    for pkeys in (['a', 'b c', 0], ['x"y', -2], ['', '1a', 'é'], ['null'], ['NULL', 'k'], ['a\\b'], ['nUll1', 'n']):
+                        ptext = R_['pg_eval_json_path'](pkeys)
+                        gotp = c29_impl.pg_array_parse(ptext)
+                        wantp = [str(k) for k in pkeys]
+                        evals += 1; count('pg-path-text')
+                        if gotp != wantp:
+                            key = 'pg-json-key-null-unquoted' if any(isinstance(k, str) and k.lower() == 'null' for k in pkeys) else ('pg-json-key-with-backslash' if any(isinstance(k, str) and '\\' in k for k in pkeys) else 'unlisted:pg-path-text')
+                            record(key, 'C29 pg-path-text (documented text[] syntax, not executed): path %r is written %r, which PostgreSQL reads as %r' % (pkeys, ptext, gotp),
+                                   {'mode': 'json1', 'kind': 'pgtext', 'keys': pkeys})
                 if rnd == 0:
                     # path wildcards ([...] and [:]) exist only for MySQL / Oracle: SQLite must refuse them at translation time
                     for wsrc in ("e.j['l'][:] for e in E", "e.j[...] for e in E"):
@@ -549,6 +564,12 @@ def replay(ctx, data):
     """re-run one stored case (same classification code as the search, on the stored documents / arrays only)"""
     mode = data['mode']; json1 = mode == 'json1'
     kind = data['kind']
+    if kind == 'pgtext':
+        text = c29_impl.real_funcs()['pg_eval_json_path'](data['keys'])
+        got = c29_impl.pg_array_parse(text)
+        if got != [str(k) for k in data['keys']]:
+            return Failure(data.get('key', 'replayed'), 'C29 pg-path-text: %r is written %r, read by PostgreSQL as %r' % (data['keys'], text, got), data)
+        return None
     if kind == 'shared':
         ids = c29_impl.load_rows(json1, data['docs'], data['arrays'])
         st, rows = c29_impl.run_query(json1, data['src'], data['params'])
